@@ -345,7 +345,7 @@ func init() {
 		ID: "C23", Level: "exploration",
 		Rule:        "per case: one harness-signed transaction of each of the 38 types (random Data values built by reflection, single signature or 1..32-signer multisig) and 10 signed checks (nonce length 0..17), each mutated 112 times by byte-level, structure-aware RLP (non-minimal lengths, single byte as string, leading zeros, trailing bytes, extra/dropped/duplicated/swapped elements, integer edges, resized arrays, nesting, lying lengths; also inside Data and SignatureData), signature (high-S twin, bad V, R/S out of range, swapped/duplicated/dropped/foreign multisig signers) and unsigned-field mutators, plus 360 random strings / random RLP trees; one evaluation = one input given to the real decoder (+Sender) and judged by round trip, an independent strict RLP parser with type-directed canonical-value rules, and signer binding against the keys the harness used; distinct = object kind x tx type x mutator x outcome",
 		Assumptions: []string{"multisig admission (distinct recovered signers, weight >= threshold, at most 32 and at most len(owners) signatures) is modelled from the recovered signers, the account state is not involved", "a multisig transaction's sender is the address inside the signature data; 'same sender' for multisig means same address and admitted signer set"},
-		Quick:       56, Thorough: 1680, MinEval: 200000, MinDistinct: 400,
+		Quick:       56, Thorough: 560, MinEval: 200000, MinDistinct: 400,
 		Run:  c23RunCase,
 		Post: c23Post,
 	})
